@@ -115,7 +115,7 @@ ARB_STRING_MAIN = r"""
             unsafe { SYM_LEN_LO = lo; SYM_LEN_HI = hi; }
             let setting = format!("len_lo={} len_hi={}", lo, hi);
             // the property only speaks about declarations whose valid set is non-empty
-            if !(0..=40usize).any(|k| { let c = "a".repeat(k); @R@::valid(&@R@::sanitize(c)) }) { continue; }
+            if !(0..=80usize).any(|k| { let c = "a".repeat(k); @R@::valid(&@R@::sanitize(c)) }) { continue; }
             for p in pats.iter() {
                 explored += 1;
                 let r = std::panic::catch_unwind(|| { let mut u = arbitrary::Unstructured::new(p); <@S@ as arbitrary::Arbitrary>::arbitrary(&mut u).map(|v| v.into_inner()) });
@@ -240,11 +240,13 @@ def witness_crate(d: Decl, extra_inputs=()):
                     '            }\n        }\n    } }\n')
         if d.family == 'string':
             # newtype-protocol documents that hand the text over as UTF-8 bytes
-            body.append('    {\n        let via_string: Result<String, serde::de::value::Error> = <String as serde::Deserialize>::deserialize(serde::de::value::BytesDeserializer::new(x.as_bytes()));\n'
+            # (also byte payloads that are NOT valid UTF-8: the inner String rejects them, so must the newtype)
+            body.append('    for (bi, bytes) in [x.as_bytes().to_vec(), { let mut b = x.as_bytes().to_vec(); b.push(0xFF); b }, { let mut b = vec![0x61u8, 0xFF]; b.extend_from_slice(x.as_bytes()); b }, vec![0x61u8, 0xC3]].into_iter().enumerate() {\n'
+                        '        let via_string: Result<String, serde::de::value::Error> = <String as serde::Deserialize>::deserialize(serde::de::value::BytesDeserializer::new(&bytes));\n'
                         '        let expected_b = match via_string { Ok(s0) => %s, Err(_) => "Err".to_string() };\n'
                         % (('match %s::try_new(s0) { Ok(i) => format!("Ok({:?})", i), Err(_) => "Err".to_string() }' % R) if has_v else 'format!("Ok({:?})", %s::sanitize(s0))' % R))
-            body.append('        let real_b = match <%s as serde::Deserialize>::deserialize(NtBytes(x.as_bytes())) { Ok(v) => format!("Ok({:?})", v.into_inner()), Err(_) => "Err".to_string() };\n' % S)
-            body.append('        report("Deserialize", &format!("newtype struct around the UTF-8 bytes of {}", label), setting, real_b, expected_b, n);\n    }\n')
+            body.append('        let real_b = match <%s as serde::Deserialize>::deserialize(NtBytes(&bytes)) { Ok(v) => format!("Ok({:?})", v.into_inner()), Err(_) => "Err".to_string() };\n' % S)
+            body.append('        report("Deserialize", &(if bi == 0 { format!("newtype struct around the UTF-8 bytes of {}", label) } else { format!("newtype struct around the bytes {:?} (not valid UTF-8)", bytes) }), setting, real_b, expected_b, n);\n    }\n')
         if d.family in ('int', 'float'):
             # documents written by hand (not renderings of an inner value): wider than the inner type, more
             # precise than it, integers for floats - the newtype must do exactly what the inner type does
